@@ -197,4 +197,18 @@ DecodeStreamRaw(reg, dir, bytes) ==
              ELSE LET rest == step[i + sz + 1] IN
                   [ok |-> rest.ok, cmds |-> <<[cid |-> cid, raw |-> SubSeq(bytes, i + 1, i + sz)]>> \o rest.cmds]
   IN  step[1]
+\* ---- command names of the LoRaWAN specification; the library's API names the payload type of a command <Name>Payload ----
+CmdName(dir, cid) ==
+  IF dir = "down" THEN
+    CASE cid = 1 -> "ResetConf" [] cid = 2 -> "LinkCheckAns" [] cid = 3 -> "LinkADRReq" [] cid = 4 -> "DutyCycleReq"
+      [] cid = 5 -> "RXParamSetupReq" [] cid = 7 -> "NewChannelReq" [] cid = 8 -> "RXTimingSetupReq" [] cid = 9 -> "TXParamSetupReq"
+      [] cid = 10 -> "DLChannelReq" [] cid = 11 -> "RekeyConf" [] cid = 12 -> "ADRParamSetupReq" [] cid = 13 -> "DeviceTimeAns"
+      [] cid = 14 -> "ForceRejoinReq" [] cid = 15 -> "RejoinParamSetupReq" [] cid = 17 -> "PingSlotChannelReq" [] cid = 19 -> "BeaconFreqReq"
+      [] cid = 32 -> "DeviceModeConf" [] OTHER -> ""
+  ELSE
+    CASE cid = 1 -> "ResetInd" [] cid = 3 -> "LinkADRAns" [] cid = 5 -> "RXParamSetupAns" [] cid = 6 -> "DevStatusAns"
+      [] cid = 7 -> "NewChannelAns" [] cid = 10 -> "DLChannelAns" [] cid = 11 -> "RekeyInd" [] cid = 15 -> "RejoinParamSetupAns"
+      [] cid = 16 -> "PingSlotInfoReq" [] cid = 17 -> "PingSlotChannelAns" [] cid = 19 -> "BeaconFreqAns" [] cid = 32 -> "DeviceModeInd"
+      [] OTHER -> ""
+PayloadTypeName(dir, cid) == CmdName(dir, cid) \o "Payload"
 ====
